@@ -17,6 +17,7 @@ SPEC = dict(
                _lab("head", "tail", "any") + ["accepted-empty"]),
             _e("c25_framing", "blocks N ': 1' b '0' CRLF b ':2' CRLF with N in {Content-Length, Transfer-Encoding, cONTENT-lENGTH} | two fields from the pool "
                "{X: a, Content-Length: 7, Transfer-Encoding: chunked, Host: h} the second possibly 'Content-Length: ' b" + _cfg, _lab("framing", "dup")),
+            dict(name="c25_known_reply_ws_colon", known=True, reach=[], max_samples=0, sample_every=0, bounds="KNOWN FINDING C25-reply-ws-before-colon only: reply blocks 'Host' b ':v' CRLF 'X: y' CRLF whose symbolic byte is whitespace before the colon, with the literal assertion 'rejected'; violations are listed in known_findings.json and printed as KNOWN-FINDING"),
         ],
         thorough=[
             _e("c25_names", "blocks 'Host' b b ':v' CRLF 'X: y' CRLF | b b 'st: v' CRLF; each for owner in {hoRequest, hoReply} x relaxed_header_parser in {-1,0,1}; b = fully symbolic byte", _lab("colon", "name")),
@@ -26,6 +27,7 @@ SPEC = dict(
                _lab("head", "tail", "any") + ["accepted-empty"]),
             _e("c25_framing", "blocks N ': 1' b '0' b LF b ':2' CRLF with N in {Content-Length, Transfer-Encoding, cONTENT-lENGTH, Host} | three fields from the pool "
                "{X: a, Content-Length: 7, Transfer-Encoding: chunked, Host: h} the second possibly 'Content-Length: ' b" + _cfg, _lab("framing", "dup")),
+            dict(name="c25_known_reply_ws_colon", known=True, reach=[], max_samples=0, sample_every=0, bounds="KNOWN FINDING C25-reply-ws-before-colon only: reply blocks 'Host' b ':v' CRLF 'X: y' CRLF whose symbolic byte is whitespace before the colon, with the literal assertion 'rejected'; violations are listed in known_findings.json and printed as KNOWN-FINDING"),
         ]),
     timeout=dict(quick=900, thorough=3000),
     stubs=["StatHist::enumInit/count are no-ops (per-header statistics histograms; StatHist.cc not linked)",
